@@ -1571,8 +1571,34 @@ Proof.
   cbn [app zip_with]. f_equal. apply IHp. cbn in Hl. lia.
 Qed.
 
+Lemma Forall_repeat_intro {A} (P : A -> Prop) x n : P x -> Forall P (repeat x n).
+Proof. intros H. induction n; cbn; constructor; assumption. Qed.
+Lemma Forall_concat_map_intro {A B} (P : B -> Prop) (f : A -> list B) l :
+  (forall y, Forall P (f y)) -> Forall P (concat (map f l)).
+Proof. intros H. induction l as [|x l IH]; cbn; [constructor|]. apply Forall_app. split; [apply H|exact IH]. Qed.
+Lemma Forall_set_nth {A} (P : A -> Prop) i x l : P x -> Forall P l -> Forall P (set_nth i x l).
+Proof.
+  intros Hx. revert i. induction l as [|y l IH]; intros i H; destruct i; cbn; try constructor;
+    inversion H; subst; auto.
+Qed.
+
+(* the text of an inner node of a block: "b name b" with intermediate names, "bbb" without *)
+Definition hnode_str (st : hstyle) (inter : bool) (centered : str) : str :=
+  if inter then [hs_branch st; 32%N] ++ centered ++ [32%N; hs_branch st]
+  else [hs_branch st; hs_branch st; hs_branch st].
+
+Ltac widths :=
+  repeat first [ apply Forall_nil
+               | apply Forall_cons
+               | apply Forall_app; split
+               | apply Forall_repeat_intro
+               | apply Forall_set_nth
+               | apply Forall_concat_map_intro; intros ];
+  unfold hnode_str, spaces, str in *; rewrite ?app_length, ?repeat_length; cbn [length]; lia.
+
 (* what hassemble does to the rows of the children: a prefix in front of every row, after the
-   separating row has been inserted between two one-row children *)
+   separating row has been inserted between two one-row children; every prefix is one cell wide:
+   the width of the node text plus the connector column *)
 Lemma hassemble_shape st inter centered (sub : list hblock) :
   sub <> [] ->
   exists prefix,
@@ -1584,16 +1610,19 @@ Lemma hassemble_shape st inter centered (sub : list hblock) :
            if Nat.eqb (length (fst (fst b0)) + snd (fst b1) - snd (fst b0)) 1
            then [nth 0 result []; []; nth 1 result []] else result
        | _ => result
-       end).
+       end)
+    /\ Forall (fun p => length p = S (length (hnode_str st inter centered))) prefix.
 Proof.
   intros HN. destruct sub as [|b0 [|b1 [|b2 rest]]]; [contradiction| | |].
-  - eexists. unfold hassemble. cbn [fst snd]. reflexivity.
+  - eexists. unfold hassemble. cbn [fst snd]. split; [reflexivity|]. widths.
   - unfold hassemble. cbn [map fst snd hd List.last sum_list fold_right length].
     rewrite Nat.add_0_r.
     replace (length (fst (fst b0)) + length (fst (fst b1)) + snd (fst b1) - length (fst (fst b1)))
       with (length (fst (fst b0)) + snd (fst b1)) by lia.
-    destruct (Nat.eqb (length (fst (fst b0)) + snd (fst b1) - snd (fst b0)) 1); eexists; reflexivity.
-  - eexists. unfold hassemble. cbn [fst snd]. reflexivity.
+    destruct (Nat.eqb (length (fst (fst b0)) + snd (fst b1) - snd (fst b0)) 1);
+      (eexists; split; [reflexivity|widths]).
+  - eexists. unfold hassemble. cbn [fst snd]. split; [reflexivity|].
+    match goal with |- context [if ?c then _ else _] => destruct c end; widths.
 Qed.
 
 Lemma hsuffixes_length st ws : forall t d, length (hsuffixes st ws d t) = hrows t.
@@ -1640,7 +1669,7 @@ Proof.
     destruct HP as [Ps [F EM]].
     destruct (hassemble_shape st inter
                 (center (if is_hole (T g n a ks) then [32%N; 32%N] else n) (pad_at ws d)) sub Hne)
-      as [prefix EH].
+      as [prefix [EH _]].
     cbv zeta in EH. pose proof (zip_with_app_concat _ _ F) as EC. unfold str in *. rewrite EM in EH.
     rewrite EC in EH.
     (* which of the two forms *)
